@@ -651,4 +651,13 @@ theorem serSpec_idem (l : DHCPv4) (p : Bytes) (fix : Bool) :
   · simp only [Bool.false_eq_true, if_false, serBad_fixed, hb, dhcpFixed_idem]
   · simp only [if_true, hb]
 
+/-! ## 8. A concrete dirty buffer (used by the counterexample and the non-vacuity examples of C07) -/
+
+/-- a buffer that held 300+300 bytes 0xA5 and was cleared -/
+def dirtyBuf : SBuf :=
+  clear (step (step (new 0 0) (.append (List.replicate 300 0xA5))) (.prepend (List.replicate 300 0xA5)))
+
+theorem dirtyBuf_inv : Inv dirtyBuf :=
+  inv_clear' _ (inv_step' _ _ (inv_step' _ _ (inv_new' 0 0)))
+
 end Gp.Dhcp
